@@ -201,6 +201,16 @@ GROUPS = {
         nontrivial='both lookups return addresses, at least two in total',
         functions=['DnsResolver::{custom, resolve_host_all}', 'DnsResolverInner::op'],
     ),
+    # C08: phase (c) of the registry unit — a disconnect request for an admitted connection against its registration
+    'relay_disconnect_bx': dict(
+        unit='relay_registry.rs', props=['C08'],
+        bounds=dict(quick=['0', '2'], thorough=['0', '2']),
+        space='(first argument {0}: the sequential histories of C06 are not run; second argument {1}: phase c) EVERY schedule of two threads — the accept task (admission of '
+              'connection 5 of endpoint 1, the rest of the setup, Clients::register) and the embedder (Clients::disconnect by connection id, or for the whole endpoint) — '
+              'with and without an older registered connection of the same endpoint, a peer endpoint being registered throughout',
+        nontrivial='all schedules',
+        functions=['Clients::{register, disconnect}', 'Client::start_shutdown'],
+    ),
     # second line behind the Verus unit builder_bind
     'builder_bind_bx': dict(
         unit='builder_bind.rs', props=['C20'],
